@@ -54,6 +54,7 @@ type Obligation struct {
 	Size    int
 	Vacuous bool
 	replayed bool
+	Inputs   map[string]string
 }
 
 // ---------- heap components and states ----------
@@ -183,6 +184,9 @@ func (e *Enc) define(hint string, t Term) Term {
 	if len(t.S) < 40 && !strings.HasPrefix(t.S, "(") {
 		return t
 	}
+	if strings.Contains(t.S, "|q.") {
+		return t // mentions a bound variable: cannot be named globally
+	}
 	c := e.freshConst(hint, t.Sort)
 	e.asserts = append(e.asserts, fmt.Sprintf("(= %s %s)", c.S, t.S))
 	return c
@@ -197,6 +201,9 @@ func (e *Enc) defineAlways(hint string, t Term) Term {
 func (e *Enc) fact(t Term) {
 	if t.S == "true" {
 		return
+	}
+	if strings.Contains(t.S, "|q.") && !strings.HasPrefix(t.S, "(forall") && !strings.HasPrefix(t.S, "(exists") {
+		return // side fact about a term under a quantifier: not expressible globally
 	}
 	e.asserts = append(e.asserts, t.S)
 }
@@ -866,6 +873,16 @@ func (e *Enc) isStructT(t types.Type) bool {
 	return ok
 }
 
+// subObj: fields of struct or array type are addressable sub-objects (their address is a proper
+// reference, sub(S,f,p)); other fields live in per-field components.
+func (e *Enc) subObj(t types.Type) bool {
+	switch t.Underlying().(type) {
+	case *types.Struct, *types.Array:
+		return true
+	}
+	return false
+}
+
 func (e *Enc) isBigInt(t types.Type) bool {
 	if n, ok := t.(*types.Named); ok {
 		return n.Obj().Pkg() != nil && n.Obj().Pkg().Path() == "math/big" && n.Obj().Name() == "Int"
@@ -899,12 +916,22 @@ func (e *Enc) loadAt(st *State, ref Term, t types.Type) Val {
 		ts = append(ts, tSelect(e.lookup(st, c), ref))
 	}
 	v, _ := e.unflatten(t, ts)
+	return e.shapeFacts(v)
+}
+
+// shapeFacts states what every slice header read from memory satisfies (0 <= len <= cap ...).
+func (e *Enc) shapeFacts(v Val) Val {
+	if sv, ok := v.(SliceV); ok {
+		named := SliceV{e.define("ld.base", sv.Base), e.define("ld.off", sv.Off), e.define("ld.len", sv.Len), e.define("ld.cap", sv.Cap)}
+		e.fact(e.sliceFact(named, Term{}))
+		return named
+	}
 	return v
 }
 
 func (e *Enc) loadField(st *State, ref Term, S types.Type, i int) Val {
 	ft := structOf(S).Field(i).Type()
-	if e.isStructT(ft) {
+	if e.subObj(ft) {
 		return e.loadAt(st, e.subRef(S, i, ref), ft)
 	}
 	var ts []Term
@@ -913,7 +940,7 @@ func (e *Enc) loadField(st *State, ref Term, S types.Type, i int) Val {
 		ts = append(ts, tSelect(e.lookup(st, c), ref))
 	}
 	v, _ := e.unflatten(ft, ts)
-	return v
+	return e.shapeFacts(v)
 }
 
 func (e *Enc) storeAt(st *State, ref Term, t types.Type, v Val) {
@@ -937,7 +964,7 @@ func (e *Enc) storeAt(st *State, ref Term, t types.Type, v Val) {
 
 func (e *Enc) storeField(st *State, ref Term, S types.Type, i int, v Val) {
 	ft := structOf(S).Field(i).Type()
-	if e.isStructT(ft) {
+	if e.subObj(ft) {
 		e.storeAt(st, e.subRef(S, i, ref), ft, v)
 		return
 	}
@@ -962,4 +989,47 @@ func (e *Enc) posStr(p token.Pos) string {
 		f = f[len(e.P.Repo)+1:]
 	}
 	return fmt.Sprintf("%s:%d", f, ps.Line)
+}
+
+// interestTerms lists the input terms whose model values describe a counterexample:
+// scalars, big.Int values, slice lengths and (two levels of) fields of struct pointers.
+func (e *Enc) interestTerms(st *State, name string, v Val, t types.Type, depth int) (out []interestTerm) {
+	defer func() {
+		if r := recover(); r != nil {
+			if _, ok := r.(unsupported); !ok {
+				panic(r)
+			}
+		}
+	}()
+	switch vv := v.(type) {
+	case Term:
+		out = append(out, interestTerm{name, vv})
+		if pt := derefType(t); pt != nil && vv.Sort == SInt {
+			if e.isBigInt(pt) {
+				out = append(out, interestTerm{"val(" + name + ")", tSelect(e.lookup(st, e.bigvalComp()), vv)})
+			} else if sT := structOf(pt); sT != nil && depth < 2 && (isRepoType(pt)) {
+				for i := 0; i < sT.NumFields(); i++ {
+					ft := sT.Field(i).Type()
+					if e.isStructT(ft) {
+						continue
+					}
+					func() {
+						defer func() { recover() }()
+						fv := e.loadField(st, vv, pt, i)
+						out = append(out, e.interestTerms(st, name+"."+sT.Field(i).Name(), fv, ft, depth+1)...)
+					}()
+				}
+			}
+		}
+	case SliceV:
+		out = append(out, interestTerm{"len(" + name + ")", vv.Len}, interestTerm{name + "==nil", tEq(vv.Base, tInt(0))})
+	case StructV:
+		sT := structOf(t)
+		for i, f := range vv.Fields {
+			if depth < 2 {
+				out = append(out, e.interestTerms(st, name+"."+sT.Field(i).Name(), f, sT.Field(i).Type(), depth+1)...)
+			}
+		}
+	}
+	return out
 }
